@@ -7,7 +7,7 @@ Inductive hinput :=
 | HRepeat (p : string) (start stop step : Z)
 | HList (p0 p1 : string) (strings : list string)
 | HLists (params : list string) (lists : list (list string))
-| HLazy (params pos : list string) (kw : list (string * string)).
+| HLazy (params : list string) (pos : list (list atok)) (kw : list (string * list atok)).   (* the call's arguments as token lists *)
 
 (* what the real expansion did *)
 Inductive rkind :=
@@ -40,7 +40,7 @@ Definition model_out (c : case) : list string * option merr :=
   | HList p0 p1 l => lift (until_err (repeat_list_texts m (c_macros c) (c_body c) p0 p1 l))
   | HLists ps ls => lift (until_err (repeat_lists_texts m (c_macros c) (c_body c) ps ls))
   | HLazy ps pos kw =>
-      match bind ps pos kw with
+      match bind_toks m ps pos kw with
       | BErr e => ([], Some (MBind e))
       | BOk b => lift (until_err [lazy_text m (c_macros c) (c_body c) b])
       end
@@ -114,3 +114,10 @@ Definition unsupported (l : list case) : list nat := bad_indices (fun c => negb 
 
 (* what the model hands to the parser, for reports *)
 Definition model_texts (c : case) : list string := fst (model_out c).
+
+(* the texts bound to the arguments of a lazy call, for reports *)
+Definition model_args (c : case) : list string :=
+  match c_in c with
+  | HLazy ps pos kw => map (arg_text (c_mode c) false) pos ++ map (fun kv => (fst kv ++ "=" ++ arg_text (c_mode c) true (snd kv))%string) kw
+  | _ => []
+  end.
